@@ -158,7 +158,7 @@ Section DynProofs.
     | FDone _ => True
     end.
 
-  Lemma lift_sim c o : sim_outcome g tb c o -> fsim_outcome c (lift o).
+  Lemma lift_sim c o : sim_outcome_stack g tb c o -> fsim_outcome c (lift o).
   Proof. destruct o as [s'|r]; cbn; [tauto|]. destruct r; tauto. Qed.
 
   Lemma acts_in_cell s stk lay1 scan fb acts :
@@ -194,13 +194,13 @@ Section DynProofs.
       assert (Hc' : c_stack c = to_stack stk) by (rewrite Hto; exact Hc).
       destruct acts as [|a0 acts0].
       + cbn. apply lift_sim.
-        apply (do_action_sim g tb c _ _ lay1 scan fb [] y Hc'); [intros a []|exact Hy].
+        apply (do_action_sim_stack g tb c _ _ lay1 scan fb [] y Hc'); [intros a []|exact Hy].
       + destruct (rfilter fs stk scan (a0 :: acts0)) as [[kept fs'] cs] eqn:Hr.
         destruct (run_filter_spec _ _ _ _ _ _ _ Hr) as (_ & Hk & _).
         destruct (Nat.ltb 1 (dd_count g kept)); [exact I|].
         destruct kept as [|k0 kept0]; [exact I|].
         cbn [fst]. apply lift_sim.
-        apply (do_action_sim g tb c _ _ lay1 scan fb _ y Hc'); [|exact Hy].
+        apply (do_action_sim_stack g tb c _ _ lay1 scan fb _ y Hc'); [|exact Hy].
         intros a Ha. apply Hsub. exact (proj1 (Hk a Ha)).
   Qed.
 
